@@ -63,11 +63,11 @@ func (vf *VerifyFunc) evalClauseIn(st *State, c *Clause, env map[string]*Val, ol
 	st.oldHeap, st.useOld = saveOld, saveUse
 	if len(ev.err) > 0 {
 		vf.eng.contractError(fmt.Sprintf("%s:%d: %s: %s", c.File, c.Line, c.Src, strings.Join(ev.err, "; ")))
-		return "false"
+		return st.fresh("contract_error", SBool)
 	}
 	if v.S != SBool {
 		vf.eng.contractError(fmt.Sprintf("%s:%d: clause is not boolean: %s", c.File, c.Line, c.Src))
-		return "false"
+		return st.fresh("contract_error", SBool)
 	}
 	return v.Tm
 }
@@ -848,8 +848,14 @@ func (vf *VerifyFunc) checkFrame(st *State, where string) {
 			}
 		}
 		// sub-objects of fresh objects (fld_addr of a fresh ref) are exempt as well
-		goal := "(forall ((fr_r Int)) (=> " + and(append(ex, "(not (g_isfresh_sub fr_r))")...) + " (= (select " + cur + " fr_r) (select " + sym(n0) + " fr_r))))"
-		goal = strings.ReplaceAll(goal, " (not (g_isfresh_sub fr_r))", "")
+		var ex2 []string
+		for _, c := range ex {
+			ex2 = append(ex2, c)
+			if strings.Contains(c, "(= fr_r ") {
+				ex2 = append(ex2, strings.Replace(c, "(= fr_r ", "(= (fld_base fr_r) ", 1), strings.Replace(c, "(= fr_r ", "(= (fld_base (fld_base fr_r)) ", 1))
+			}
+		}
+		goal := "(forall ((fr_r Int)) (=> " + and(ex2...) + " (= (select " + cur + " fr_r) (select " + sym(n0) + " fr_r))))"
 		st.check("frame", k, "", "only locations in modifies change ("+k+")", where, goal)
 	}
 }
